@@ -16,6 +16,8 @@ RULE = ("boundary enumeration per guarded entry point (index = size-1, size, siz
         "method names valid/invalid/empty/case-changed; parameters at/inside/outside their range) plus seeded random "
         "shapes and tables; a case is non-trivial when the model answers ok or err; distinct = distinct request lines; "
         "per-entry-point counts are in input_distribution as '<op> <model tag>'")
+# environment replica (check.py): these requests draw their seed from std::random_device, so the value is not a function of the request
+ENV_REPLICA_SKIP = r"^c10\.integ\S* .*m:(Monte-Carlo|Miser|Vegas)"
 CORR_ONLY = ["real memory safety is observed by the sanitizers on the compiled program; the theorems prove the index arithmetic",
              "Interpolation_2D(data_table) sort/unique step: std::sort + std::unique modelled by mergeSort + eraseDups (guard_iff for this constructor is correspondence-only)",
              "values returned by accepted requests are not compared here (C01-C09, C12-C20 do that)"]
